@@ -1,0 +1,21 @@
+//go:build verif
+
+package bdb
+
+import (
+	"github.com/btcsuite/btcwallet/walletdb"
+	"go.etcd.io/bbolt"
+)
+
+// VerifOpenReadTxs reports how many read transactions are currently open on
+// the bbolt database behind d (bbolt's Stats().OpenTxN; the single read/write
+// transaction is not counted by bbolt).  It returns -1 if d is not a database
+// of this driver.  Test hook of the verification harness (property C11): a
+// managed View must not leave its read transaction open.
+func VerifOpenReadTxs(d walletdb.DB) int {
+	b, ok := d.(*db)
+	if !ok {
+		return -1
+	}
+	return (*bbolt.DB)(b).Stats().OpenTxN
+}
